@@ -396,8 +396,7 @@ def check_flow(ctx):
         par = parents_of(fn.node)
         us = uses(fn, subject)
         if not us:
-            ctx.ob('T13', fn.fq, '%s is rendered by this function' % what, False, loc=fn.loc,
-                   detail='no use of %s found' % subject)
+            ctx.unknown('T13', fn.fq, 'no use of %s found (%s rendered elsewhere?)' % (subject, what), fn.loc)
             return
         for n in us:
             k = classify(fn, n, par, quote, need_fq)
@@ -479,7 +478,7 @@ def check_flow(ctx):
     loops = [n for n in ast.walk(qt.node) if isinstance(n, ast.For) and isinstance(n.target, ast.Tuple)
              and len(n.target.elts) == 2]
     if not loops:
-        ctx.ob('T13', qt.fq, 'query pairs are rendered in a loop over (key, value)', False, loc=qt.loc)
+        ctx.unknown('T13', qt.fq, 'no loop over (key, value) pairs found', qt.loc)
     for lp in loops:
         kname, vname = txt(lp.target.elts[0]), txt(lp.target.elts[1])
         multi = isinstance(lp.iter, ast.Call) and any(k.arg == 'multi' and txt(k.value) == 'True' for k in lp.iter.keywords)
